@@ -150,6 +150,18 @@ CHECKS = {
         note='Noise-free exactness tolerance 1e-4; diagonal scaling limited to 2e-4 by float32 direction vectors.',
         technique='ground-truth oracle on aligner / scaler outputs, rigidity invariants, input-immutability monitor',
         engine='lighthouse-oracles', design='DESIGN.md §3 C16'),
+    'C08': dict(
+        level='exploration',
+        text=('Every command API (RPYT, velocity-world, z-distance, hover, position, full-state, stop, notify-stop, HL take-off/'
+              'land/stop/go-to/spiral/define/start/group-mask, ext-pos, ext-pose, emergency stop + watchdog, LH persist, arming, '
+              'crash recovery, continuous wave, LPP short packets) is called with generated arguments through the real '
+              'Crazyflie.send_packet onto a recording link, under protocol versions on both sides of every legacy switch and '
+              'X-mode on/off. One capture window per call; the packet is decoded by an independent reference decoder of the '
+              'firmware struct and must give back the arguments (float32 bit-exact, fixed point within one unit, documented '
+              'sign conventions and saturations); unrepresentable arguments must raise with nothing sent. All 16x4 headers.'),
+        note='Reference decoders written from the firmware structs; see assumptions in the evidence file.',
+        technique='reference-decoder oracle on packets captured at the link boundary',
+        engine='codec-oracles', design='DESIGN.md §3 C08'),
 }
 
 PENDING_REASON = ('check not built yet in this work session (design in DESIGN.md §3); nothing is claimed for it '
@@ -193,7 +205,7 @@ def manifest():
             'add_only': True,
         },
         'engines': [
-            {'name': 'codec-oracles', 'path': 'vf/checks', 'serves_properties': ['C13'],
+            {'name': 'codec-oracles', 'path': 'vf/checks', 'serves_properties': [p for p in ('C08', 'C12', 'C13', 'C14', 'C18', 'C20') if p in CHECKS],
              'kind_free_text': 'independent reference computations judged against return values of the real functions'},
             {'name': 'lighthouse-oracles', 'path': 'vf/lhgen.py, vf/checks/c09.py c15.py c16.py',
              'serves_properties': [p for p in ('C09', 'C15', 'C16') if p in CHECKS],
